@@ -20,7 +20,7 @@ INFO = {
                    "R18-3 the closures handed to the cfg_iter*/for_each loops of the witness map capture only shared references "
                    "(no &mut, no lock, no atomic): each iteration writes its own item only, so the result cannot depend on the pool size. "
                    "R18-4 SledDB::new_with_tries (recursive or counted-loop form): at most 10 attempts, another attempt only after the WouldBlock error, "
-                   "the wait before attempt k+1 is 10^k ms, and Database::new / Database::load start at attempt 0. R18-4 also: Database::new / load open the location only through the retrying opener, exactly once on every path (no direct sled::Config::open).",
+                   "the wait before attempt k+1 is 10^k ms, and Database::new / Database::load start at attempt 0. R18-4 also: Database::new / load open the location only through the retrying opener, exactly once on every path (no direct sled::Config::open). R18-5 (shared, C20 R20-4): the named inputs of the witness calculation come from a HashMap whose order differs per thread; each is stored whole into its own declared region under an exact length test, so the order cannot matter.",
     "not_decided": "deadlock freedom and timing of sled and pmtree internals (their own locks and rayon pools), bit-identity across pool "
                    "sizes of third-party parallel code, and behaviour under actual contention (dynamic)",
     "assumptions": ["Send/Sync auto-trait checking by rustc; arkworks' parallel iterators are deterministic given independent items"],
